@@ -264,3 +264,16 @@ def req_to_json(variant, op, fmt=0, ext=0, lang=0, flags=0, args=()):
 
 def req_from_json(j):
     return (j['op'], j['fmt'], j['ext'], j['lang'], j['flags'], [base64.b64decode(a) for a in j['args_b64']])
+
+
+def token_type_names():
+    """enum token_types from the public header: value -> name."""
+    import re as _re
+    src = open(os.path.join(_build.REPO, 'src', 'libMultiMarkdown.h')).read()
+    body = src[src.index('enum token_types {'):]
+    body = body[:body.index('};')]
+    names, v = {}, -1
+    for m in _re.finditer(r'^\s*([A-Z_0-9a-z]+)\s*(?:=\s*(\d+))?\s*,', body, _re.M):
+        v = int(m.group(2)) if m.group(2) else v + 1
+        names[v] = m.group(1)
+    return names
